@@ -146,9 +146,55 @@ Definition commit_ok (s : st) : bool :=
 (* one observed block: the batch operations and trim candidates read off the real code, and what the real
    node stored: trimmed keys (ReadTrimmedUTXOs), the full 'ut'+'cl' scan (sorted by key index), the stored
    set size, and whether MuHash(scan) equals the stored multiset / header UTXORoot. *)
+(* o_undone: the 'ut'/'cl' scan observed after the node switched its head back from this block to its parent with
+   the real HeaderChain.SetCurrentHeader (None: this block was not rolled back alone). *)
 Record blk := mkBlk {
   b_ops : list op; b_cands : list (list cand);
-  o_trimmed : list key; o_content : db; o_size : N; o_rootok : bool }.
+  o_trimmed : list key; o_content : db; o_size : N; o_rootok : bool; o_undone : option db }.
+
+(* ---------- head switch: one iteration of the rollback loop of core/headerchain.go:SetCurrentHeader ---------- *)
+(* The undo records Process writes for the Qi outputs of a block:
+     rawdb.WriteSpentUTXOs      : every ProcessQiTx input with the record SEEN THROUGH THE BATCH (so an output created
+                                  earlier in the same block and spent later in it is listed),
+     rawdb.WriteCreatedUTXOKeys : the key of every output the block creates.
+   Lockup ('cl') records have undo lists of their own (DeletedCoinbaseLockups / CreatedCoinbaseLockupKeys); they are
+   not modelled here (C10), [Update] contributes nothing. *)
+Fixpoint undo_records (d : db) (ops : list op) : list (key * elem) * list key :=
+  match ops with
+  | [] => ([], [])
+  | o :: t =>
+      let '(d1, _, _) := eff d o in
+      let '(sp, cr) := undo_records d1 t in
+      match o with
+      | Create k _ => (sp, k :: cr)
+      | Spend k => match db_get d k with Some old => ((k, old) :: sp, cr) | None => (sp, cr) end
+      | Update _ _ => (sp, cr)
+      end
+  end.
+Definition puts (l : list (key * elem)) (d : db) : db := fold_left (fun d kv => db_put (fst kv) (snd kv) d) l d.
+Definition delks (l : list key) (d : db) : db := fold_left (fun d k => db_del k d) l d.
+(* both loops write into ONE batch: for a key in both records the later write wins.
+   RestoreThenDelete = the source as it is: rawdb.CreateUTXO for ReadSpentUTXOs ++ ReadTrimmedUTXOs, then
+   batch.Delete for ReadCreatedUTXOKeys. *)
+Inductive undo_order := RestoreThenDelete | DeleteThenRestore.
+Definition undo (o : undo_order) (sp : list (key * elem)) (cr : list key) (d : db) : db :=
+  match o with
+  | RestoreThenDelete => delks cr (puts sp d)
+  | DeleteThenRestore => puts sp (delks cr d)
+  end.
+(* the database after [finalize] wrote the block, then rolled back *)
+Definition rollback_block (o : undo_order) (tv : trim_view) (s : st) (ops : list op) (cands : list (list cand))
+  : option db :=
+  match finalize tv s ops cands with
+  | None => None
+  | Some (s', _) =>
+      let '(d1, _, _) := run_ops (s_db s) ops in
+      let view := match tv with ParentDb => s_db s | AfterOps => d1 end in
+      let tr := flat_map (trim_one view) cands in
+      let '(sp, cr) := undo_records (s_db s) ops in
+      Some (undo o (sp ++ tr) cr (s_db s'))
+  end.
+Definition is_ut (o : op) : bool := match o with Update _ _ => false | _ => true end.
 
 Fixpoint db_eqb (a b : db) : bool :=
   match a, b with
@@ -169,9 +215,59 @@ Fixpoint check_chain (tv : trim_view) (s : st) (bs : list blk) : bool :=
       | Some (s', tr) =>
           set_eqb tr (o_trimmed b) && db_eqb (s_db s') (o_content b) && N.eqb (s_size s') (o_size b)
           && Bool.eqb (acc_eqb (s_acc s') (of_content (content (s_db s')))) (o_rootok b)
+          && match o_undone b with
+             | None => true
+             | Some u => match rollback_block RestoreThenDelete tv s (b_ops b) (b_cands b) with
+                         | Some d => db_eqb d u
+                         | None => false
+                         end
+             end
           && check_chain tv s' t
       end
   end.
+
+(* ---------- the block batch shared by the TrimBlock goroutines ---------- *)
+(* ethdb.Batch: "A batch cannot be used concurrently".  The record buffer of a batch is an ordinary append
+   (memorydb: b.writes = append(b.writes, kv); leveldb / pebble: the batch's byte buffer): read the length,
+   write the record at that position, publish length + 1.  A goroutine executing batch.Delete(k) therefore
+   performs two steps, [ERead g] and [EWrite g k]; a schedule is the global order of these steps.
+   [rb_log] = the buffer, [rb_n] = its published length; [regs] = the position each goroutine read. *)
+Record rbuf := mkBuf { rb_log : list key; rb_n : nat }.
+Inductive ev := ERead (g : N) | EWrite (g : N) (k : key).
+Definition set_nth (i : nat) (k : key) (l : list key) : list key := firstn i l ++ k :: skipn (S i) l.
+Fixpoint reg (g : N) (regs : list (N * nat)) : option nat :=
+  match regs with
+  | [] => None
+  | (g', i) :: t => if N.eqb g g' then Some i else reg g t
+  end.
+Fixpoint run_sched (b : rbuf) (regs : list (N * nat)) (s : list ev) : rbuf :=
+  match s with
+  | [] => b
+  | ERead g :: t => run_sched b ((g, rb_n b) :: regs) t
+  | EWrite g k :: t =>
+      match reg g regs with
+      | Some i => run_sched (mkBuf (set_nth i k (rb_log b)) (S i)) regs t
+      | None => run_sched b regs t
+      end
+  end.
+(* what batch.Write() hands to the database *)
+Definition written (b : rbuf) : list key := firstn (rb_n b) (rb_log b).
+Definition empty_buf : rbuf := mkBuf [] 0.
+(* headerchain_validation.go:TrimBlock as it is: batch.Delete inside lock.Lock() .. lock.Unlock(): the two steps
+   of one Delete are adjacent in every schedule; [ks] = the deletes in the order the goroutines got the lock,
+   each with the goroutine (denomination) that issued it *)
+Definition locked_sched (ks : list (N * key)) : list ev :=
+  flat_map (fun gk : N * key => [ERead (fst gk); EWrite (fst gk) (snd gk)]) ks.
+(* a schedule in which every goroutine still runs its own steps in program order (each write after a read of the
+   same goroutine, one write per read) *)
+Fixpoint sched_wf (armed : list N) (s : list ev) : bool :=
+  match s with
+  | [] => true
+  | ERead g :: t => negb (memN g armed) && sched_wf (g :: armed) t
+  | EWrite g _ :: t => memN g armed && sched_wf (filter (fun x => negb (N.eqb x g)) armed) t
+  end.
+Definition ewrites (s : list ev) : list key :=
+  flat_map (fun e => match e with EWrite _ k => [k] | ERead _ => [] end) s.
 
 (* ====================================================================================================
    Account storage bookkeeping of one state object during one block
